@@ -346,6 +346,24 @@ fn run(ctx: &mut Ctx) {
             }
         }
     }
+    // several descriptors at every valid stride up to 128 and at larger ones; large counts
+    ctx.bound("large", "2 and 3 descriptors at every stride 40,48,..,128 and 136, 248, 256, 264, 4096; 255, 256, 257 descriptors of 40 bytes; 1366 descriptors of 48 bytes (map longer than 64 KiB); 65537 bytes of map with stride 40 (not divisible)");
+    let big = Arena::new(40);
+    let mut large: Vec<(u32, usize)> = vec![];
+    for d in (40u32..=128).step_by(8).chain([136, 248, 256, 264, 4096]) {
+        large.push((d, 2 * d as usize));
+        large.push((d, 3 * d as usize));
+    }
+    large.extend([(40, 255 * 40), (40, 256 * 40), (40, 257 * 40), (48, 1366 * 48), (40, 65537)]);
+    for (d, l) in large {
+        let img = image(d, 1, l);
+        let describe = || J::obj().set("body", "canonical-large").set("desc_size", d).set("desc_version", 1).set("map_len", l);
+        ctx.leaf(describe, |ctx| {
+            ctx.state_direct();
+            ctx.nontrivial();
+            canonical(ctx, &big, d, 1, l, &img);
+        });
+    }
     // histories
     let depth = if quick { if ctx.dev_profile() { 4 } else { 5 } } else if ctx.dev_profile() { 6 } else { 7 };
     ctx.bound("histories", format!("all call sequences up to depth {} over {{next, len, size_hint, Debug}} on up to 2 handles plus clone, on desc_size {{40,48,64}} x 0..=3 descriptors and six invalid combinations", depth));
